@@ -353,7 +353,7 @@ func (s *c02State) checkTranscoder() {
 
 func runC02(c *Ctx) {
 	c.rule("X1", "every path argument of a mutating filesystem call in the extraction call graph belongs to D (derived from the sanitiser's accepted result or the caller's cleaned destination)", 6)
-	c.rule("X2", "every accepting return of sanitiseZipExtractPath is on the true side of a containment predicate over filepath.Join(destination, name) and returns that joined path", 2)
+	c.rule("X2", "every accepting return of sanitiseZipExtractPath is on the true side of a containment predicate over filepath.Join(destination, name) and returns that joined path; a directory derived from the stem of an accepted path cannot be a parent reference", 2)
 	c.rule("X4", "the transcoder of non-UTF-8 names keeps a sanitised path in its directory: it returns its argument, or Join(directory of the argument, converted name) where the converted name was found to be a single path element (equal to its own filepath.Base, not \"..\")", 1)
 	c.rule("X3", "the sanitiser refuses with the ErrMalicious kind; unzip returns the sanitiser's error unchanged", 2)
 
@@ -485,6 +485,57 @@ func runC02(c *Ctx) {
 		}
 		return false
 	}
+	// the same containment stated on the relative path: rel, err := filepath.Rel(destination, joined); accepted where
+	// err == nil, rel != ".." and rel does not start with "../" (or ".." + separator)
+	relContainment := func(r *ssa.Return) bool {
+		var relCall *ssa.Call
+		allInstrs(san, func(in ssa.Instruction) {
+			if cl, ok := in.(*ssa.Call); ok && calleeFull(&cl.Call) == "path/filepath.Rel" && cl.Call.Args[0] == ssa.Value(destP) && isJoined(cl.Call.Args[1]) {
+				relCall = cl
+			}
+		})
+		if relCall == nil {
+			return false
+		}
+		var rel, relErr ssa.Value
+		for _, rr := range *relCall.Referrers() {
+			if ex, ok := rr.(*ssa.Extract); ok {
+				if ex.Index == 0 {
+					rel = ex
+				} else {
+					relErr = ex
+				}
+			}
+		}
+		if rel == nil || relErr == nil || !onNilSide(relErr, r) {
+			return false
+		}
+		isDotDot := func(v ssa.Value) bool { cs, ok := constString(v); return ok && cs == ".." }
+		notParent := onBoolSide(r, true, func(v ssa.Value) bool {
+			b, ok := v.(*ssa.BinOp)
+			return ok && b.Op == token.NEQ && ((b.X == rel && isDotDot(b.Y)) || (b.Y == rel && isDotDot(b.X)))
+		}) || onBoolSide(r, false, func(v ssa.Value) bool {
+			b, ok := v.(*ssa.BinOp)
+			return ok && b.Op == token.EQL && ((b.X == rel && isDotDot(b.Y)) || (b.Y == rel && isDotDot(b.X)))
+		})
+		noPrefix := onBoolSide(r, false, func(v ssa.Value) bool {
+			cl, ok := v.(*ssa.Call)
+			if !ok || calleeFull(&cl.Call) != "strings.HasPrefix" || cl.Call.Args[0] != rel {
+				return false
+			}
+			if cs, ok := constString(cl.Call.Args[1]); ok && (cs == "../" || cs == "..\\") {
+				return true
+			}
+			// ".." + separator built with Sprintf / concatenation
+			for _, l := range sources(cl.Call.Args[1], deriveOpts{through: func(string) bool { return true }}) {
+				if cs, ok := constString(l); ok && strings.HasPrefix(cs, "..") {
+					return true
+				}
+			}
+			return false
+		})
+		return notParent && noPrefix
+	}
 	accepts := 0
 	allInstrs(san, func(in ssa.Instruction) {
 		r, ok := in.(*ssa.Return)
@@ -493,7 +544,7 @@ func runC02(c *Ctx) {
 		}
 		accepts++
 		key := fname(san) + "/accept"
-		guarded := onBoolSide(r, true, containment)
+		guarded := onBoolSide(r, true, containment) || relContainment(r)
 		retJoined := isJoined(r.Results[0])
 		switch {
 		case !guarded:
@@ -527,7 +578,8 @@ func runC02(c *Ctx) {
 			b, ok := v.(*ssa.BinOp)
 			return ok && b.Op == token.EQL && (isJoined(b.X) || isJoined(b.Y))
 		}
-		bad := ""
+		// (a) the sanitiser refuses every path with ".." anywhere in it
+		substringForm := true
 		allInstrs(san, func(in ssa.Instruction) {
 			r, ok := in.(*ssa.Return)
 			if !ok || isErrorExit(san, r) {
@@ -537,11 +589,49 @@ func runC02(c *Ctx) {
 				return
 			}
 			if !onBoolSide(r, false, noDots) {
-				bad = c.ipos(r)
+				substringForm = false
 			}
 		})
-		c.check(bad == "", "X2", fname(san)+"/no-parent-component", c.pos(san.Pos()), "accepted paths contain no \"..\": the stem used for a nested archive's destination cannot be a parent reference",
-			"the accepting return at "+bad+" admits paths containing \"..\" while the extraction derives the destination of a nested archive from the stem of the accepted path (Join(Dir(d), FilepathStem(d))): an entry named `...zip` is then extracted into the parent of the destination")
+		// (b) or every directory derived from the stem of an accepted path tests that stem against ".." first
+		bad := ""
+		if !substringForm {
+			for _, g := range fns {
+				if g == st.determ {
+					continue // covered by X4
+				}
+				allInstrs(g, func(in ssa.Instruction) {
+					jc, ok := in.(*ssa.Call)
+					if !ok || calleeFull(&jc.Call) != "path/filepath.Join" {
+						return
+					}
+					for _, e := range variadicElems(jc.Call.Args[0])[1:] {
+						sv := resolveValue(e)
+						sc, isCall := sv.(*ssa.Call)
+						if !isCall || !(strings.HasSuffix(calleeFull(&sc.Call), "filesystem.FilepathStem") || calleeFull(&sc.Call) == "path/filepath.Base") {
+							continue
+						}
+						tested := onBoolSide(jc, false, func(v ssa.Value) bool {
+							b, ok := v.(*ssa.BinOp)
+							if !ok || b.Op != token.EQL {
+								return false
+							}
+							x, y := resolveValue(b.X), resolveValue(b.Y)
+							cs, okc := constString(y)
+							if okc && cs == ".." && x == sv {
+								return true
+							}
+							cs, okc = constString(x)
+							return okc && cs == ".." && y == sv
+						})
+						if !tested {
+							bad = c.ipos(jc)
+						}
+					}
+				})
+			}
+		}
+		c.check(bad == "", "X2", fname(san)+"/no-parent-component", c.pos(san.Pos()), "the stem used for a nested archive's destination cannot be a parent reference (refused by the sanitiser, or tested where the directory is derived)",
+			"the directory derived at "+bad+" joins the stem of an accepted path (FilepathStem/Base) without having tested it against \"..\", while the sanitiser admits names such as `...zip` whose stem is \"..\": the nested archive is then extracted into the parent of the directory it is in — outside the destination")
 	}
 	if accepts == 0 {
 		c.violate("X2", fname(san)+"/accept", c.pos(san.Pos()), "the sanitiser accepts nothing or is no longer recognisable")
